@@ -61,7 +61,7 @@ func diffMultiset(got, want []string) (missing, extra []string) {
 
 func workerC01(r *vk.Run, w, n int, args []string) {
 	rng := rand.New(rand.NewSource(r.Seed*52711 + int64(w)*13 + 1))
-	g := &Gen{R: rng}
+	g := NewGen(rng, w)
 	bin, _ := fzfrun.Bin()
 	runs := 300000
 	if !r.Quick() {
